@@ -162,6 +162,9 @@ class Context:
         self.notes = []
         self.exhaustive = True
         self.groups = {}
+        import glob
+        for old in glob.glob(os.path.join(REPLAY_DIR, "%s-*.json" % pid)):   # replay files of earlier runs are stale
+            os.remove(old)
         self.scratch = tempfile.mkdtemp(prefix="verif_%s_" % pid)
         self.oldcwd = os.getcwd()
         os.chdir(self.scratch)
